@@ -244,7 +244,7 @@ def _run_add(repo, name, arg):
     return kind, me, f
 
 
-def _check_routes(repo, res):
+def _check_routes(repo, res, rule="R-NORM"):
     rate, mag = Tok("r", "sym"), Tok("m", "sym")
     n = 0
     specs = {
@@ -271,18 +271,18 @@ def _check_routes(repo, res):
             try:
                 kind, me, f = _run_add(repo, meth, arg)
             except Undecided as e:
-                res.undecided("R-NORM", "pygom/model/base_ode_model.py::BaseOdeModel.%s" % meth, "route(%s,%s)" % (tt, label), "outside the modelled subset: %s" % e)
+                res.undecided(rule, "pygom/model/base_ode_model.py::BaseOdeModel.%s" % meth, "route(%s,%s)" % (tt, label), "outside the modelled subset: %s" % e)
                 continue
             tag = "route(%s,%s)" % (tt, label)
             if kind == "raise":
-                res.violated("R-NORM", f, tag, "%s raises for a valid %s process" % (label, tt), node=f.node)
+                res.violated(rule, f, tag, "%s raises for a valid %s process" % (label, tt), node=f.node)
                 continue
             evs = me.attrs["_eventList"]
             if len(evs) != 1:
-                res.violated("R-NORM", f, tag, "%s adds %d events for one process" % (label, len(evs)), node=f.node)
+                res.violated(rule, f, tag, "%s adds %d events for one process" % (label, len(evs)), node=f.node)
                 continue
             got = descriptor(evs[0])
-            res.check(got == want, "R-NORM", f, tag, "%s yields (rate, [(type, origin, destination, magnitude)]) = %s" % (label, want),
+            res.check(got == want, rule, f, tag, "%s yields (rate, [(type, origin, destination, magnitude)]) = %s" % (label, want),
                       "the same %s process entered through %s becomes %s instead of %s (field lost or altered on this route)" % (tt, label, got, want),
                       node=f.node, extra={"descriptor": repr(got)})
     res.floor("API routes compared", n, 11)
@@ -291,19 +291,19 @@ def _check_routes(repo, res):
         try:
             kind, me, f = _run_add(repo, meth, mk_transition(transition_type=bad_tt, origin="S", destination="I" if bad_tt == "T" else None, equation=rate))
         except Undecided as e:
-            res.undecided("R-NORM", "pygom/model/base_ode_model.py::BaseOdeModel.%s" % meth, "rejects(%s)" % bad_tt, "outside the modelled subset: %s" % e)
+            res.undecided(rule, "pygom/model/base_ode_model.py::BaseOdeModel.%s" % meth, "rejects(%s)" % bad_tt, "outside the modelled subset: %s" % e)
             continue
-        res.check(kind == "raise", "R-NORM", f, "rejects(%s)" % bad_tt, "%s rejects a %s-type input" % (meth, bad_tt),
+        res.check(kind == "raise", rule, f, "rejects(%s)" % bad_tt, "%s rejects a %s-type input" % (meth, bad_tt),
                   "%s accepts a %s-type input" % (meth, bad_tt))
     # add_ode keeps the object as is
     ode = mk_transition(transition_type="ODE", origin="S", equation=rate)
     try:
         kind, me, f = _run_add(repo, "add_ode", ode)
     except Undecided as e:
-        res.undecided("R-NORM", "pygom/model/base_ode_model.py::BaseOdeModel.add_ode", "route(ODE,add_ode)", "outside the modelled subset: %s" % e)
+        res.undecided(rule, "pygom/model/base_ode_model.py::BaseOdeModel.add_ode", "route(ODE,add_ode)", "outside the modelled subset: %s" % e)
         return
     res.check(kind == "return" and len(me.attrs["_odeList"]) == 1 and me.attrs["_odeList"][0] is ode and not me.attrs["_eventList"],
-              "R-NORM", f, "route(ODE,add_ode)", "add_ode stores the ODE transition itself in the ODE list",
+              rule, f, "route(ODE,add_ode)", "add_ode stores the ODE transition itself in the ODE list",
               "add_ode does not store the given ODE transition in the ODE list", node=f.node)
 
 
@@ -337,27 +337,77 @@ def _check_accumulating(repo, res):
                   "entered term by term gives a different ODE" % (meth, got), node=f.node)
 
 
+def _class_eq(repo):
+    """equality of two abstract Transition / Event objects as the class's own __eq__ defines it (identity when it defines none)"""
+    def eq(x, y):
+        if not (isinstance(x, Obj) and isinstance(y, Obj) and x.cls == y.cls and x.cls in ("Transition", "Event")):
+            return None
+        try:
+            ci = repo.cls(M.M_TRANS, x.cls)
+        except Exception:
+            return None
+        f = ci.methods.get("__eq__")
+        if f is None:
+            return x is y
+        ab = Abs({}, TYPES, {}, x)
+        ab.consts = {"TransitionType": TT}
+        kind, out = ab.run_function(f.node, {f.params[1]: y})
+        if kind != "return":
+            raise Raised(str(out))
+        return bool(out)
+    return eq
+
+
 def _check_setters(repo, res):
     cls = M.sim_class(repo)
+    rate, rate2 = Tok("r", "sym"), Tok("q", "sym")
+    members = {
+        # two processes that differ only in magnitude, a different one, and the first one listed again (a process listed twice acts twice)
+        "transition_list": lambda: [mk_transition(transition_type="T", origin="S", destination="I", equation=rate, magnitude="1"),
+                                    mk_transition(transition_type="T", origin="S", destination="I", equation=rate, magnitude="2"),
+                                    mk_transition(transition_type="T", origin="I", destination="R", equation=rate2),
+                                    mk_transition(transition_type="T", origin="S", destination="I", equation=rate, magnitude="1")],
+        "birth_death_list": lambda: [mk_transition(transition_type="B", destination="S", equation=rate, magnitude="1"),
+                                     mk_transition(transition_type="B", destination="S", equation=rate, magnitude="3"),
+                                     mk_transition(transition_type="D", origin="S", equation=rate2),
+                                     mk_transition(transition_type="B", destination="S", equation=rate, magnitude="1")],
+        "ode_list": lambda: [mk_transition(transition_type="ODE", origin="S", equation=rate), mk_transition(transition_type="ODE", origin="I", equation=rate),
+                             mk_transition(transition_type="ODE", origin="S", equation=rate2), mk_transition(transition_type="ODE", origin="S", equation=rate)],
+        "event_list": lambda: [mk_event([mk_transition(transition_type="T", origin="S", destination="I", magnitude="1")], rate),
+                               mk_event([mk_transition(transition_type="T", origin="S", destination="I", magnitude="2")], rate),
+                               mk_event([mk_transition(transition_type="D", origin="I")], rate2),
+                               mk_event([mk_transition(transition_type="T", origin="S", destination="I", magnitude="1")], rate)],
+    }
+    store = {"transition_list": "_transitionList", "birth_death_list": "_birthDeathList", "ode_list": "_odeList", "event_list": "_eventList"}
     for prop, target in (("transition_list", "add_transition"), ("event_list", "add_event"),
                          ("birth_death_list", "add_birth_death"), ("ode_list", "add_ode")):
         s = repo.resolve_setter(cls, prop)
         if s is None:
             raise AnalysisError("setter %s vanished" % prop)
-        items = [Obj("Transition", tag=i) for i in range(3)]
-        calls = []
-        me = Obj("Model")
-        summ = {"Model." + target: lambda me_, x, _c=calls: _c.append(x)}
-        ab = Abs({}, TYPES, summ, me)
-        try:
-            kind, _ = ab.run_function(s.node, {s.params[1]: list(items)})
-        except Undecided as e:
-            res.undecided("R-NORM", s, "delegates", "outside the modelled subset: %s" % e)
-            continue
-        ok = kind == "return" and [id(c) for c in calls] == [id(i) for i in items]
-        res.check(ok, "R-NORM", s, "delegates", "every element is handed to %s, in order" % target,
-                  "the %s setter hands %d of 3 elements to %s (order kept: %s)" % (prop, len(calls), target, [id(c) for c in calls] == [id(i) for i in items][:len(calls)]),
-                  node=s.node)
+        for held in (0, 1):
+            # held = 1: the model already holds the first process (entered incrementally before the list is assigned)
+            items = members[prop]()
+            calls = []
+            me = _model_self()
+            if held:
+                me.attrs[store[prop]].append(members[prop]()[0])
+
+            def record(me_, x, _c=calls, _st=store[prop]):
+                _c.append(x)
+                me_.attrs[_st].append(x)          # what the add_* routine does with it (decided by the route checks)
+            summ = dict(_model_summaries())
+            summ["Model." + target] = record
+            ab = Abs({"TransitionType": TT}, TYPES, summ, me, eq=_class_eq(repo))
+            tag = "delegates" if not held else "delegates(first process already held)"
+            try:
+                kind, _ = ab.run_function(s.node, {s.params[1]: list(items)})
+            except Undecided as e:
+                res.undecided("R-NORM", s, tag, "outside the modelled subset: %s" % e)
+                continue
+            ok = kind == "return" and [id(c) for c in calls] == [id(i) for i in items]
+            res.check(ok, "R-NORM", s, tag, "every listed process (also two that differ only in magnitude, and one listed twice) is handed to %s, in order" % target,
+                      "the %s setter hands %d of %d listed processes to %s: a listed process is skipped (processes that differ only in magnitude, or a process listed twice, are different entries)"
+                      % (prop, len(calls), len(items), target), node=s.node)
     # constructor routes the keyword lists through the setters
     init = repo.func(M.M_BASE, "BaseOdeModel.__init__")
     for kw_, prop in (("transition", "transition_list"), ("event", "event_list"), ("birth_death", "birth_death_list"), ("ode", "ode_list")):
@@ -382,27 +432,25 @@ def _check_split(repo, res):
     f2 = repo.func(M.M_BASE, "BaseOdeModel._add_list_attr_with_limits")
     inputs = ["a,b,c", "a b c", "a, b ,c", " a  b,", "S,I R", "beta gamma,N", "x"]
     bad = []
+    from .C11 import _run_decl
     for s in inputs:
         outs = []
-        for f in (f1, f2):
-            got = {}
-            me = Obj("Model")
-            summ = {"re_split_string.split": lambda x: rx.split(x),
-                    "Model.__setattr__": lambda me_, n, v: me_.attrs.__setitem__(n, v)}
-            ab = Abs({}, dict(TYPES), summ, me)
-            try:
-                kind, _ = ab.run_function(f.node, {"attr": s, "attr_list_name": "names"})
-            except Undecided as e:
-                res.undecided("R-SPLIT", f, "abstract-execution", "outside the modelled subset: %s" % e)
-                return
-            outs.append((kind, me.attrs.get("names")))
-        want = [x for x in _re.split(r"[,\s]", s) if x.strip()]
-        # list form through the limits helper
-        got = {}
         me = Obj("Model")
-        ab = Abs({}, dict(TYPES), {"Model.__setattr__": lambda me_, n, v: me_.attrs.__setitem__(n, v)}, me)
-        kind, _ = ab.run_function(f2.node, {"attr": list(want), "attr_list_name": "names"})
-        outs.append((kind, me.attrs.get("names")))
+        summ = {"re_split_string.split": lambda x: rx.split(x),
+                "Model.__setattr__": lambda me_, n, v: me_.attrs.__setitem__(n, v)}
+        ab = Abs({}, dict(TYPES), summ, me)
+        try:
+            kind, _ = ab.run_function(f1.node, {"attr": s, "attr_list_name": "names"})
+            outs.append((kind, me.attrs.get("names")))
+            # the state helper with the real state_list setter behind it: the names are the states the model ends up with
+            kind, _, got = _run_decl(repo, s)
+            outs.append((kind, [n_ for n_, _l in got]))
+            want = [x for x in _re.split(r"[,\s]", s) if x.strip()]
+            kind, _, got = _run_decl(repo, list(want))
+            outs.append((kind, [n_ for n_, _l in got]))
+        except Undecided as e:
+            res.undecided("R-SPLIT", f2, "abstract-execution", "outside the modelled subset: %s" % e)
+            return
         if not all(k == "return" and o == want for k, o in outs):
             bad.append("%r -> %s (expected %s)" % (s, [o for _, o in outs], want))
     res.check(not bad, "R-SPLIT", f2, "agree", "both helpers and the list form give the same names for %d declaration strings" % len(inputs),
